@@ -88,7 +88,7 @@ def search_failing(ctx, name, cg, pos):
                         if got2 != got:
                             ctx.violation(f'{name}: changing the invisible cell {(y, x)} changed which cells are visible', dict(case, cell=(y, x)))
                             return
-            elif cg[y][x] == WALL:
+            elif wire.mkobj(cg[y][x]).blocks_vision:
                 got2 = mask_of(name, gen.set_cell(cg, (y, x), FLOOR), pos)
                 if got2[0] == 'ok' and not vis <= set(got2[1]):
                     ctx.violation(f'{name}: making the visible opaque cell {(y, x)} transparent hid {sorted(vis - set(got2[1]))}', dict(case, cell=(y, x)))
@@ -180,6 +180,14 @@ def run(ctx):
         h, w = r.choice([(5, 5), (7, 7), (6, 5), (5, 7), (7, 5), (4, 7), (6, 6)])
         dens = r.choice([0.1, 0.2, 0.3, 0.45])
         cg = tuple(tuple(WALL if r.random() < dens else FLOOR for _ in range(w)) for _ in range(h))
+        if r.random() < 0.3:
+            # occluders that are not walls: closed / locked doors block vision, open doors do not (opacity is a property of the INSTANCE);
+            # no wall anywhere in the view
+            CL, LK, OP = (gen.TY['Door'], 1, 2, None), (gen.TY['Door'], 2, 4, None), (gen.TY['Door'], 0, 1, None)
+            cg = tuple(tuple((r.choice([CL, LK]) if c == WALL else (OP if r.random() < 0.15 else FLOOR)) for c in row) for row in cg)
+            ctx.count('medium view occluders', 'doors only')
+        else:
+            ctx.count('medium view occluders', 'walls')
         name = r.choice(['raytracing', 'partially_occluded'])
         # partially_occluded is defined for an agent on the bottom row only (it raises NotImplementedError otherwise, as documented)
         pos = (h - 1, w // 2) if r.random() < 0.7 else (h - 1 if name == 'partially_occluded' else r.randrange(h), r.randrange(w))
@@ -197,7 +205,8 @@ def run(ctx):
         unseen = [(y, x) for y in range(h) for x in range(w) if (y, x) not in set(got[1])]
         r.shuffle(unseen)
         for q in unseen[:3]:
-            flipped = gen.set_cell(cg, q, FLOOR if cg[q[0]][q[1]] == WALL else WALL)
+            opaque_here = wire.mkobj(cg[q[0]][q[1]]).blocks_vision
+            flipped = gen.set_cell(cg, q, FLOOR if opaque_here else r.choice([WALL, (gen.TY['Door'], 1, 2, None)]))
             got2 = mask_of(name, flipped, pos)
             ctx.count('mask-level replacement', name)
             if got2 != got:
@@ -266,7 +275,12 @@ def run(ctx):
     for _ in range(ns):
         h, w = r.randint(1, 5), r.randint(1, 5)
         cg = gen.rand_grid(r, h, w, floor_bias=0.5)
-        pos = (h - 1, r.randrange(w))
+        if r.random() < 0.5:
+            # sparse pillars in views of the usual size: cells seen THROUGH gaps (fully lit cells beyond partially lit ones)
+            h, w = r.choice([(5, 5), (7, 7), (6, 5), (5, 7)])
+            cg = tuple(tuple(WALL if r.random() < r.choice([0.08, 0.15, 0.25]) else FLOOR for _ in range(w)) for _ in range(h))
+        pos = (h - 1, r.randrange(w)) if r.random() < 0.5 else (h - 1, w // 2)
+        cg = gen.set_cell(cg, pos, FLOOR) if cg[pos[0]][pos[1]] == WALL else cg
         det = mask_of('raytracing', cg, pos)
         if det[0] != 'ok':
             continue
